@@ -380,7 +380,11 @@ class PipeWorld:
     def known_targets(self):
         import dawgie.db
 
+        from dawgie.db.shelve.state import DBI
+
         try:
+            if DBI().is_reopened:  # the archive step is between its reopen() and its close(): as good as closed
+                raise RuntimeError('reopened')
             self._known = dawgie.db.targets()
         except RuntimeError:  # database closed (reload window): last known list
             self.probes['targets_asked_while_db_closed'] += 1
